@@ -862,6 +862,8 @@ def main(ctx: Ctx) -> int:
     sib: dict = {}
     for t, rj in sorted(v["rejected"].items()):
         clause = (rj["clauses"] or ["NoEnabledAction"])[0]
+        # (the invariants of one state are judged independently of each other: the one this property owns, if it is among the failed)
+        clause = next((c_ for c_ in rj["clauses"] if c_.startswith("Inv:") and CLAUSE_PROP.get(c_, "C01") == pid), clause)
         tr = bytid[t]
         at = max(1, min(rj["at"], len(tr["ev"])))
         evk = tr["ev"][at - 1]["k"]
